@@ -900,3 +900,92 @@ class C15Surfaces(Checker):
         sa, sb = _shape(w, na), _shape(w, nb)
         if sa != sb:
             w.violate('C15', 'surfaces-differ-output', {'step': step, 'explicit': sa, 'shortcut': sb})
+
+
+# ---------------------------------------------------------------------------------- C17
+DECL = '<?xml version="1.0" encoding="UTF-8" standalone="no"?>\n'
+
+
+class C17Write(Checker):
+    """write() is all-or-nothing: if it raises before the document text exists the destination keeps
+    its prior state; if it returns, the file holds the declaration followed by exactly to_string(),
+    encoded in UTF-8 - whatever the default text encoding."""
+
+    def before(self, w, op):
+        self.pre = None
+        if op['op'] != 'WRITE':
+            return
+        root = w.docs.get(op['doc'])
+        if root is None:
+            return
+        from .simfs import MOUNT
+        path = MOUNT + op['path']
+        ic = bool(op.get('ic'))
+        ts = infork(lambda: w._quiet(lambda: w.verdict(root.el, ic)))
+        self.pre = (path, w.fs.state(path), ts, w.fs.default_encoding, w.async_exc_at)
+        w.async_in_to_string = None
+
+    def after(self, w, op, ev):
+        if self.pre is None or ev['r'] == 'skip':
+            return
+        path, prior, ts, enc, async_k = self.pre
+        now = w.fs.state(path)
+        w.count('c17.writes_judged')
+        fired = list(w.fs.fired)
+        if ev['r'] == 'ok':
+            if ts[0] != 'text':
+                w.violate('C17', 'wrote-although-to_string-fails', {'to_string': ts[:2], 'encoding': enc})
+                return
+            want = (DECL + ts[1]).encode('utf-8')
+            if now[0] != 'file':
+                w.violate('C17', 'content-differs', {'state': now[0], 'encoding': enc})
+                return
+            got = bytes.fromhex(now[1])
+            if got != want:
+                try:
+                    same_in_locale = got.decode(enc) == DECL + ts[1]
+                except Exception:
+                    same_in_locale = False
+                if same_in_locale:
+                    w.violate('C17', 'not-utf8', {'encoding': enc})
+                else:
+                    w.violate('C17', 'content-differs', {'encoding': enc, 'want_len': len(want), 'got_len': len(got),
+                                                          'at': _first_byte_diff(want, got)})
+            return
+        # write raised
+        t = ev['t']
+        e = w.last_exc
+        if t == 'SimInterrupt':
+            if w.async_in_to_string:
+                w.count('c17.async_inside_to_string')
+                if now != prior:
+                    w.violate('C17', 'destination-changed-on-failed-write', {'cause': 'async exception inside to_string()',
+                                                                             'prior': prior[0], 'now': _st(now)})
+            return
+        if isinstance(e, OSError) and fired:
+            return      # injected I/O error after/around the text: outside the property; it propagated
+        if ts[0] != 'text':
+            # validation / serialisation fails: the text never existed
+            if now != prior:
+                w.violate('C17', 'destination-changed-on-failed-write', {'cause': ts[1] if len(ts) > 1 else 'to_string failed',
+                                                                         'prior': prior[0], 'now': _st(now), 'encoding': enc})
+            return
+        if isinstance(e, UnicodeError) or enc != 'utf-8':
+            w.violate('C17', 'locale-dependent-outcome', {'encoding': enc, 'exc': t, 'prior': prior[0], 'now': _st(now)})
+            return
+        if isinstance(e, OSError):
+            return      # e.g. read-only destination, directory: a genuine refusal of the OS
+        w.violate('C17', 'write-failed-on-valid-document', {'exc': t})
+
+
+def _st(state):
+    if state[0] == 'file':
+        return ['file', len(state[1]) // 2]
+    return state
+
+
+def _first_byte_diff(a, b):
+    for i, (x, y) in enumerate(zip(a, b)):
+        if x != y:
+            return i
+    return min(len(a), len(b))
